@@ -1,1 +1,61 @@
+"""K1 - pure helpers of hl7apy/__init__.py and the parser's default resolvers (C07, C15, C17)"""
 from contracts import contract
+
+_REQ = ['FIELD', 'COMPONENT', 'SUBCOMPONENT', 'REPETITION', 'ESCAPE']
+_ALL_PRESENT = ' and '.join('dhas(encoding_chars, "%s")' % k for k in _REQ)
+_pairs = [(a, b) for i, a in enumerate(_REQ) for b in _REQ[i + 1:]]
+_DISTINCT5 = ' and '.join('dget(encoding_chars, "%s") != dget(encoding_chars, "%s")' % p for p in _pairs)
+_TRUNC_DISTINCT = 'implies(dhas(encoding_chars, "TRUNCATION"), %s)' % ' and '.join(
+    'dget(encoding_chars, "TRUNCATION") != dget(encoding_chars, "%s")' % k for k in _REQ)
+
+contract(
+    'hl7apy:check_encoding_chars',
+    sig={'encoding_chars': 'dict[str]'},
+    returns='none',
+    ensures=[
+        ('all_present', _ALL_PRESENT),
+        ('distinct', _DISTINCT5),
+        # C07: "sets with missing or duplicated characters are rejected" - the truncation character counts
+        ('truncation_distinct', _TRUNC_DISTINCT),
+    ],
+    raises={'InvalidEncodingChars': {'when': 'not (%s and %s and %s)' % (_ALL_PRESENT, _DISTINCT5, _TRUNC_DISTINCT)}},
+    raises_only=['InvalidEncodingChars'],
+    modifies=[],
+    properties=['C07'],
+    notes='a non-mapping argument raises InvalidEncodingChars as well (isinstance test); the signature restricts to dicts',
+)
+
+contract('hl7apy:check_validation_level', sig={'validation_level': 'any'}, returns='none',
+         ensures=[('ok', 'validation_level == 1 or validation_level == 2')],
+         raises={'UnknownValidationLevel': {'when': 'not (validation_level == 1 or validation_level == 2)'}},
+         raises_only=['UnknownValidationLevel'], modifies=[], properties=['C15', 'C17'])
+
+contract('hl7apy:get_default_version', sig={}, returns='str',
+         ensures=[('value', 'result == global_("hl7apy:_DEFAULT_VERSION")')], raises={}, modifies=[],
+         properties=['C17'])
+contract('hl7apy:get_default_validation_level', sig={}, returns='int',
+         ensures=[('value', 'result == global_("hl7apy:_DEFAULT_VALIDATION_LEVEL")')], raises={}, modifies=[],
+         properties=['C17'])
+contract('hl7apy:get_default_encoding_chars', sig={'version': 'str?'}, returns='dict[str]',
+         ensures=[('v27', 'implies(version is not None and strlen(version) > 0 and version >= "2.7", '
+                          'result is global_("hl7apy:_DEFAULT_ENCODING_CHARS_27"))'),
+                  ('older', 'implies(version is None or strlen(version) == 0 or not version >= "2.7", '
+                            'result is global_("hl7apy:_DEFAULT_ENCODING_CHARS"))')],
+         raises={}, modifies=[], properties=['C07', 'C17'])
+
+contract('hl7apy.parser:_get_validation_level', sig={'validation_level': 'any'}, returns='any',
+         ensures=[('explicit', 'implies(validation_level is not None, result == validation_level)'),
+                  ('default', 'implies(validation_level is None, result == global_("hl7apy:_DEFAULT_VALIDATION_LEVEL"))'),
+                  ('valid', 'implies(validation_level is not None, validation_level == 1 or validation_level == 2)')],
+         raises={'UnknownValidationLevel': {'when': 'validation_level is not None and not (validation_level == 1 or validation_level == 2)'}},
+         raises_only=['UnknownValidationLevel'], modifies=[], properties=['C15', 'C17'])
+
+contract('hl7apy.parser:_get_encoding_chars', sig={'encoding_chars': 'dict[str]?', 'version': 'str?'},
+         returns='dict[str]',
+         ensures=[('explicit', 'implies(encoding_chars is not None, result is encoding_chars)'),
+                  ('default27', 'implies(encoding_chars is None and version is not None and strlen(version) > 0 and version >= "2.7", '
+                                'result is global_("hl7apy:_DEFAULT_ENCODING_CHARS_27"))'),
+                  ('default', 'implies(encoding_chars is None and (version is None or strlen(version) == 0 or not version >= "2.7"), '
+                              'result is global_("hl7apy:_DEFAULT_ENCODING_CHARS"))')],
+         raises={'InvalidEncodingChars': {'when': 'encoding_chars is not None'}},
+         raises_only=['InvalidEncodingChars'], modifies=[], properties=['C07', 'C15', 'C17'])
